@@ -105,8 +105,22 @@ DEFAULT_VAR = ("f", 0, "f", 0)
 
 
 def build_var(a, b, var):
-    """build an operand pair under a variant (ctype_a, form_a, ctype_b, form_b)"""
-    return build(a, CT[var[0]], var[1]), build(b, CT[var[2]], var[3])
+    """build an operand pair under a variant (ctype_a, form_a, ctype_b, form_b).  The descriptors are valid
+    by construction, so a constructor that raises is itself a failure of the property under test (its
+    operands cannot even be formed) and is reported as such, not as a harness error."""
+    from .engine import Fail
+
+    out = []
+    for o, ct, form in ((a, var[0], var[1]), (b, var[2], var[3])):
+        try:
+            out.append(build(o, CT[ct], form))
+        except Exception as e:  # noqa
+            raise Fail(
+                "constructing a valid %s operand (form %d, %s coordinates) raises %s" % (o[0], form, ct, exc_sig(e)),
+                {"operand": o, "error": repr(e)},
+                {"constructor": True},
+            )
+    return out[0], out[1]
 
 
 def _xyz(p):
